@@ -479,8 +479,19 @@ func (cs *Contracts) LoadFile(path, pkgPath string) error {
 		case "nopanic":
 			// `nopanic own`: this function's own operations never panic; its callees may (callers must not rely on it)
 			if f := strings.Fields(rest); len(f) > 0 && f[0] == "own" {
-				tags, _ := parseTags(strings.TrimSpace(strings.TrimPrefix(strings.TrimSpace(rest), "own")))
-				cur.NoPanicOwn = &Clause{Kind: "nopanic", Tags: tags, File: path, Line: ln}
+				r2 := strings.TrimSpace(strings.TrimPrefix(strings.TrimSpace(rest), "own"))
+				cl := &Clause{Kind: "nopanic", File: path, Line: ln, Src: rest}
+				// `nopanic own when EXPR`: panic freedom is only claimed for entry states satisfying EXPR
+				if strings.HasPrefix(r2, "when ") {
+					e, err := ParseExpr(strings.TrimSpace(r2[5:]))
+					if err != nil {
+						return fmt.Errorf("%s:%d: %v", path, ln, err)
+					}
+					cl.E = e
+				} else {
+					cl.Tags, _ = parseTags(r2)
+				}
+				cur.NoPanicOwn = cl
 				curOn = nil
 				break
 			}
